@@ -20,7 +20,8 @@ func emitSession(c *runCfg, cs *caseT) {
 	}
 }
 
-// replaySessions re-runs the cases of a replay file on the current tree.
+// replaySessions re-runs the cases of a replay file on the current tree; the
+// connections of a multi-connection case are run together again.
 func replaySessions(c *runCfg) error {
 	f, err := os.Open(c.replay)
 	if err != nil {
@@ -29,6 +30,13 @@ func replaySessions(c *runCfg) error {
 	defer f.Close()
 	sc := bufio.NewScanner(f)
 	sc.Buffer(make([]byte, 1<<20), 1<<28)
+	type member struct {
+		idx int
+		cs  *caseT
+	}
+	groups := map[string][]member{}
+	meta := map[string]*node{}
+	var order []string
 	for sc.Scan() {
 		l := sc.Text()
 		if !strings.HasPrefix(l, "(sess ") {
@@ -38,7 +46,50 @@ func replaySessions(c *runCfg) error {
 		if err != nil {
 			return err
 		}
-		emitSession(c, caseFrom(n))
+		cs := caseFrom(n)
+		m := n.field("multi")
+		if m == nil {
+			emitSession(c, cs)
+			continue
+		}
+		g := cs.id
+		if i := strings.IndexByte(g, '.'); i >= 0 {
+			g = g[:i]
+		}
+		if _, ok := groups[g]; !ok {
+			order = append(order, g)
+			meta[g] = m
+		}
+		groups[g] = append(groups[g], member{idx: atoi(m.list[1].atom), cs: cs})
+	}
+	for _, g := range order {
+		ms := groups[g]
+		m := meta[g]
+		n := atoi(m.list[2].atom)
+		free := m.list[3].atom == "1"
+		cases := make([]*caseT, n)
+		for _, mem := range ms {
+			if mem.idx < n {
+				cases[mem.idx] = mem.cs
+			}
+		}
+		complete := true
+		for _, cs := range cases {
+			if cs == nil {
+				complete = false
+			}
+		}
+		if !complete { // not all connections of the group are in the file: run what is there alone
+			for _, mem := range ms {
+				emitSession(c, mem.cs)
+			}
+			continue
+		}
+		var sched []int
+		for _, k := range m.field("sched").list[1:] {
+			sched = append(sched, atoi(k.atom))
+		}
+		emitMulti(c, "replay", cases, sched, free)
 	}
 	return sc.Err()
 }
